@@ -13,7 +13,7 @@ from pyvc import cuts
 EXTRA = ['spec.dealing', 'contracts.engine', 'contracts.c06', 'contracts.c10']
 Q = 'pokerkit.state.State.'
 NAMES = ['street_post_init', 'begin_dealing', 'phase_hole', 'phase_board', 'hole_dealee_index', 'verify_hole_dealing', 'verify_board_dealing',
-         'verify_card_burning', 'burn_card', 'deal_hole', 'stand_pat_or_discard', 'update_dealing']
+         'verify_standing_pat_or_discarding', 'verify_card_burning', 'burn_card', 'deal_hole', 'stand_pat_or_discard', 'update_dealing']
 HAVOC = {'begin_dealing': ['_update_dealing'], 'burn_card': ['_update_dealing'], 'deal_hole': ['_update_dealing'],
          'stand_pat_or_discard': ['_update_dealing'], 'update_dealing': ['_end_dealing', 'burn_card', 'deal_hole', 'deal_board']}
 
@@ -58,6 +58,12 @@ def vc_task(task):
     return res
 
 
+def shared_c14_task(task):
+    import props.c14 as p14
+    from pyvc.runner import relabel
+    return relabel(p14.vc_task(task), 'C10')
+
+
 def main(argv=None):
     chk = Check('C10', 'proof', argv)
     source(EXTRA)
@@ -68,12 +74,18 @@ def main(argv=None):
         for sh in (shapes(chk.tier) if name != 'street_post_init' else shapes(chk.tier)[:1]):
             tasks.append({'module': 'props.c10', 'fn': 'vc_task', 'name': f'{name}/n{sh.n}h{sh.H}b{sh.B}', 'contract': name, 'shape': sh.as_dict(),
                           'timeout_ms': 120000 if chk.tier == 'thorough' else 40000, 'weight': sh.n * sh.H})
+    if not only:
+        # "each board receives exactly the prescribed number of community cards": where board cards land is C14's deal_board contract
+        import props.c14 as p14
+        for sh in p14.shapes(chk.tier, 'deal_board'):
+            tasks.append({'module': 'props.c10', 'fn': 'shared_c14_task', 'name': f'deal_board/s{sh.S}b{sh.B}r{sh.R}', 'contract': 'deal_board',
+                          'shape': sh.as_dict(), 'timeout_ms': 300000 if chk.tier == 'thorough' else 150000, 'weight': 20})
     chk.run_tasks(tasks)
     chk.assumptions += [
         '"each player receives exactly the prescribed cards" is: due := prescription at _begin_dealing, every deal_hole serves the front of '
         'the due queue with its facings, betting starts only when nothing is due -- the sum over the dealing operations of a street is an '
         'induction over the log that is not machine-checked',
-        'where board cards land and how many a board is due: C14 (deal_board); cards come from cards not in play: C06',
+        'where board cards land and how many a board is due: the C14 contract of deal_board, discharged here too (shared obligations); cards come from cards not in play: C06',
         'asserts are C07 obligations; shapes as listed (players, at most H cards per prescription / hand, boards)',
     ]
     return chk.finish(checker_cmd='./check C10 --tier ' + chk.tier,
